@@ -62,7 +62,15 @@ def expected_kwargs(f: dict) -> dict:
     if sc is None:
         scope = None
     elif sc.strip().startswith("["):
-        scope = [p.strip().strip("'\"") for p in sc.strip(" []").split(",")]
+        from harness.props.c04 import spec_classify
+
+        scope = []
+        for part in sc.strip(" []").split(","):
+            part = part.strip()
+            if len(part) >= 2 and part[0] == part[-1] and part[0] in "'\"":
+                scope.append(part[1:-1])          # a quoted item is that string, whatever it spells
+            else:
+                scope.append(spec_classify(part))
     else:
         scope = [sc]
     return {"includes": not f["I"], "mode": "a" if f["append"] else "w", "order": f["order"], "comments": not f["C"],
@@ -132,6 +140,10 @@ def make_sources(rng, base: Path, n: int):
         (base / f"parsed.src{i}").write_text("preExisting  1;\nscopeA { old 2; }\n")   # matters for --mode a
 
 
+JSON_SRC = '{"2": {"a": 1, "b": {"c": 2}}, "cases": {"20": {"x": 1.5}, "name": {"y": true}}, "top": 0}'
+SCOPE_SPELLINGS = ["2", "['2']", '["2"]', "[2]", "['cases', '20']", "[cases, '20']", "[cases, 20]", "[cases, name]", "[ 'cases' , \"name\" ]", "cases"]
+
+
 def snapshot(d: Path) -> dict:
     return {str(p.relative_to(d)): p.read_bytes() for p in sorted(d.rglob("*")) if p.is_file()}
 
@@ -168,6 +180,7 @@ def e2e_case(args):
         for d in (a, b, logs):
             d.mkdir()
         make_sources(rng, a, 2)
+        (a / "num.json").write_text(JSON_SRC)
         for p in a.iterdir():
             shutil.copy(p, b / p.name)
         before = snapshot(a)
@@ -279,6 +292,26 @@ def run(ctx):
         jobs = [(f, f"src{(i + s) % 2}", ctx.seed + 7 * i + s) for i, f in enumerate(matrix) for s in range(3)]
     with ThreadPoolExecutor(max_workers=16) as ex:
         results = list(ex.map(e2e_case, jobs))
+    # scope spellings incl. quoted numeric names against a JSON source whose members are named by numeric strings
+    base0 = {"I": False, "order": False, "C": False, "append": False, "out": None, "scope": None, "verb": None, "log": False}
+    sjobs = [(dict(base0, scope=sp, out=o), "num.json", ctx.seed + 1000 + i) for i, sp in enumerate(SCOPE_SPELLINGS) for o in (None, "json")]
+    with ThreadPoolExecutor(max_workers=16) as ex:
+        sresults = list(ex.map(e2e_case, sjobs))
+    jobs = jobs + sjobs
+    results = results + sresults
+    # validate_scope: model vs implementation on scope strings
+    from dictIO.cli.dict_parser import _validate_scope
+
+    texts = SCOPE_SPELLINGS + ["[a]", "[a,b]", "[ a , b ]", "['a b', c]", "[1.5, true, NULL]", "['1.5', 'true']", "[]", "[ ]", "a b", "[a", "a]", " [x]"]
+    mo = wire.run_model(["validate_scope " + wire.enc_str(t) for t in texts])
+    for t, ml in zip(texts, mo):
+        try:
+            il = "ok " + wire.enc_list(_validate_scope(t), wire.enc_scalar)
+        except Exception as e:  # noqa: BLE001
+            il = "raise " + type(e).__name__
+        ctx.corr_compared += 1
+        if wire.canon_floats(ml) != wire.canon_floats(il):
+            ctx.disagree("validate_scope", {"kind": "wiring", "flags": dict(base0, scope=t)}, ml, il)
     for (f, src, seed), r in zip(jobs, results):
         c = {"kind": "e2e", "flags": f, "src": src, "seed": seed}
         if r:
